@@ -77,6 +77,7 @@ pub fn main(entries: Vec<Entry>, dyn_peers: Vec<(&'static str, rt::registry::Pee
         Some("check") => cmd_check(&args[1..], &reg, table),
         Some("replay") => cmd_replay(&args[1..], &reg, table),
         Some("hashes") => cmd_hashes(&args[1..], &reg, table),
+        Some("probe") => cmd_probe(&args[1..], &reg, table),
         Some("show") => cmd_show(&args[1..], &reg, table),
         _ => {
             eprintln!("usage: check <PROP> --tier quick|thorough [--seed N] [--runs N] [--workers N] [--evidence F] [--replays D] [--known F]\n       replay <file>\n       hashes <PROP> --seed N --runs N --workers N\n       show <PROP> --seed N --run N");
@@ -107,6 +108,35 @@ fn cmd_show(args: &[String], reg: &Reg, table: ProfileTable) -> i32 {
         println!("{}", serde_json::to_string_pretty(&json!({"plan": o.plan, "armed": o.armed, "collateral": o.collateral, "harness_error": o.harness_error,
             "ops": rec.ops.iter().map(|r| json!({"idx": r.idx, "outcome": r.outcome, "outcome1": r.outcome1, "events": r.events})).collect::<Vec<_>>() })).unwrap());
     }
+    0
+}
+
+/// a short single-threaded slice of runs in this (fresh) process: state the code under test keeps
+/// process-wide (statics, once-cells) starts from scratch here, whatever the main sweep did first
+fn cmd_probe(args: &[String], reg: &Reg, table: ProfileTable) -> i32 {
+    let prop = args.first().cloned().unwrap_or_default();
+    let seed: u64 = arg_val(args, "--seed").and_then(|s| s.parse().ok()).unwrap_or(1);
+    let first: u64 = arg_val(args, "--first").and_then(|s| s.parse().ok()).unwrap_or(0);
+    let runs: u64 = arg_val(args, "--runs").and_then(|s| s.parse().ok()).unwrap_or(50);
+    let profile = arg_val(args, "--profile").unwrap_or_default();
+    if arg_val(args, "--tier").as_deref() == Some("thorough") {
+        crate::set_scale(3);
+    }
+    let known = load_known(&arg_val(args, "--known").unwrap_or_else(|| "/verif/known_findings.txt".to_string()));
+    let ps = table(&prop);
+    let Some(p) = pick_profile(&ps, &profile) else { return 2 };
+    for r in first..first + runs {
+        let o = run_one(p, reg, seed, r);
+        if let Some(e) = o.harness_error {
+            println!("PROBE-HARNESS run={r} :: {e}");
+            return 2;
+        }
+        if let Some(f) = o.armed.iter().find(|f| is_known(&known, f).is_none()) {
+            println!("PROBE-FAIL run={} oracle={} :: {}", r, f.oracle, f.detail.replace('\n', " "));
+            return 1;
+        }
+    }
+    println!("PROBE-OK");
     0
 }
 
@@ -172,7 +202,8 @@ fn cmd_replay(args: &[String], reg: &Reg, table: ProfileTable) -> i32 {
             println!("NOT-REPRODUCED property={prop} oracle={oracle} (search limit {limit})");
             return 0;
         }
-        let mut r = run % workers;
+        let first = v["first"].as_u64().unwrap_or(0);
+        let mut r = first + (run - first.min(run)) % workers;
         loop {
             let o = run_one(p, reg, seed, r);
             if r == run {
@@ -253,8 +284,50 @@ fn cmd_check(args: &[String], reg: &Reg, table: ProfileTable) -> i32 {
     let mut known_hits: Vec<String> = vec![];
     let mut harness: Vec<String> = vec![];
     let mut total_viol = 0;
+    let mut probes_run = 0u64;
     for (p, share) in &ps {
         let n = (runs * share / share_total).max(1);
+        // cold-start probes: fresh processes, single-threaded, short slices at scattered offsets
+        if violation.is_none() {
+            let exe = std::env::current_exe().expect("exe");
+            let n_probes: u64 = if tier == "thorough" { 24 } else { 8 };
+            for i in 0..n_probes {
+                let first = 1_000_000 + i * 1000;
+                let out = std::process::Command::new(&exe)
+                    .args(["probe", &prop, "--seed", &seed.to_string(), "--first", &first.to_string(), "--runs", "40", "--profile", p.name(), "--tier", &tier])
+                    .args(["--known", &arg_val(args, "--known").unwrap_or_else(|| "/verif/known_findings.txt".to_string())])
+                    .output()
+                    .expect("spawn probe");
+                probes_run += 1;
+                let text = String::from_utf8_lossy(&out.stdout).to_string();
+                if out.status.code() == Some(2) {
+                    harness.push(format!("cold-start probe: {}", text.trim()));
+                }
+                if out.status.code() == Some(1) {
+                    if let Some(line) = text.lines().find(|l| l.starts_with("PROBE-FAIL")) {
+                        let run: u64 = line.split("run=").nth(1).and_then(|x| x.split_whitespace().next()).and_then(|x| x.parse().ok()).unwrap_or(first);
+                        let oracle = line.split("oracle=").nth(1).and_then(|x| x.split_whitespace().next()).unwrap_or("").to_string();
+                        let _ = std::fs::create_dir_all(&replays);
+                        let hist = replays.join(format!("{}-{}-{}-history.json", prop, seed, run));
+                        let hbody = json!({
+                            "kind": "thread-history", "property": prop, "oracle": oracle, "seed": seed, "run": run, "first": first,
+                            "workers": 1, "profile": p.name(), "tier": tier, "found_by": "cold-start probe", "detail": line,
+                            "note": "replay = runs first..=run on one thread of a fresh process",
+                        });
+                        std::fs::write(&hist, serde_json::to_string_pretty(&hbody).unwrap()).expect("write replay");
+                        let st = std::process::Command::new(&exe).arg("replay").arg(&hist).output().expect("spawn replay");
+                        if st.status.code() == Some(1) {
+                            println!("violation: {} (cold-start probe at run {})", line, run);
+                            violation = Some((oracle, hist));
+                            total_viol += 1;
+                        } else {
+                            harness.push(format!("cold-start probe failed at run {run} but its history did not reproduce in a fresh process"));
+                        }
+                        break;
+                    }
+                }
+            }
+        }
         let agg = sweep(p.as_ref(), reg, seed, 0, n, workers, false, Some(deadline), &known);
         for (r, e) in agg.harness.iter().take(3) {
             harness.push(format!("{} run {}: {}", p.name(), r, e));
@@ -401,6 +474,7 @@ fn cmd_check(args: &[String], reg: &Reg, table: ProfileTable) -> i32 {
             "cells": cells.0,
             "collateral_other_properties": collateral,
             "known_findings_seen": known_hits,
+            "cold_start_probes": {"processes": probes_run, "runs_each": 40, "what": "fresh single-threaded processes over scattered slices of runs, so that process-wide state of the code under test starts from scratch"},
             "workers": workers,
             "components": {
                 "real": ["sylvia-derive macros (expanded from /repo at this build)", "sylvia run-time (ctx, types, builder, into_response, multitest)", "generated messages / dispatch / reply routing / builders / entry points / proxies", "cosmwasm-std, cw-utils, serde-json-wasm, serde-cw-value"],
